@@ -68,7 +68,13 @@ def run(chk, tier):
                     yield x, "lookup"
         guards.dominated(chk, P, fn, "memattrs.c", uses, lambda st: V in st, "R-GUARD",
                          "stored targets are used only after the cache was found valid or hwloc__imattr_refresh ran", min_inst=1, canon=canon)
-    chk.decided += ["compaction of targets/initiators after a refresh copies the surviving entry down, never the dropped one over it",
+    chk.rule("R-PARTIALINIT", "an initialiser that fills a record through an out-parameter fills every field of each sub-record it starts filling, when the program copies such records as a whole "
+             "(record types and initialisers discovered; must-written field paths per successful return; fields of anonymous sub-records recovered from the unit's member accesses)")
+    import partialinit
+    npi, pirecs = partialinit.run(chk, P, ["memattrs.c"])
+    chk.floor("R-PARTIALINIT", "successful returns of record initialisers", npi, 2)
+    chk.decided += ['an initiator location converted from the user structure is complete before it is copied into a new initiator (get_initiators never returns an unset object pointer)',
+                    "compaction of targets/initiators after a refresh copies the surviving entry down, never the dropped one over it",
                     "after hwloc_topology_dup() the copy's cached targets/initiators are invalidated (values survive dup and are re-resolved against the copy)",
                     "register: unique name loop and exactly one ordering flag (all words)", "*nr overflow convention: stores bounded by the caller's capacity, count reported",
                     "best-of queries keep the maximal/minimal value with first-wins ties (exhaustive fold over orderings)", "Capacity/Locality read-only",
